@@ -114,7 +114,12 @@ impl Prop for C15 {
             let sp = |bit: usize, name: &str, v: &CVal| -> String { match lit(v) { // (no literal form for negative values, nor for integers beyond 2^53: typed literals pass through f64, a recorded C13 finding)
               Some(l) if combo & (1 << bit) != 0 && !l.starts_with('-') && l.chars().take_while(|c| c.is_ascii_digit()).count() <= 15 => l, _ => name.to_string() } };
             let (sa, ss, sb) = (sp(0, "a", &av), sp(1, "s", &sv), sp(2, "b", &bv));
+            // every third draw: operands bound by the generators of an enclosing comprehension (la <- [a], ...), with globals of
+            // the same names holding other values; the comprehension then lists exactly the terms of the range
+            let local = if d % 3 == 2 { 1 + (d as usize / 3 + sc.len()) % 7 } else { 0 };
+            let (sa, ss, sb) = (if local & 1 != 0 { "la".to_string() } else { sa }, if local & 2 != 0 && has_step { "ls".to_string() } else { ss }, if local & 4 != 0 { "lb".to_string() } else { sb });
             let src = match *form { "excl" => format!("{}..{}", sa, sb), "incl" => format!("{}..={}", sa, sb), "step-excl" => format!("{}..{}..{}", sa, ss, sb), _ => format!("{}..{}..={}", sa, ss, sb) };
+            let src = if local != 0 { let mut g = String::new(); if src.contains("la") { g.push_str("la <- [a], "); } if src.contains("ls") { g.push_str("ls <- [s], "); } if src.contains("lb") { g.push_str("lb <- [b], "); } if g.is_empty() { src } else { format!("[y | {}y <- {}]", g, src) } } else { src };
             out.push(Case { id, cell, input: json!({"kind": k, "a": av, "s": sv, "b": bv, "src": src, "expect": exp, "mode": "exact"}) });
           }
         }
@@ -173,6 +178,8 @@ impl Prop for C15 {
     let src = case.input["src"].as_str().unwrap();
     let mut s = Sess::new();
     s.bind("a", &a, false); s.bind("s", &sv, false); s.bind("b", &b, false);
+    // decoy globals named like the generator-bound operands (they must not be looked at)
+    if src.starts_with("[y |") { s.bind("la", &b, false); s.bind("ls", &a, false); s.bind("lb", &a, false); }
     let res = s.eval(src);
     let arm = s.last_arm();
     let desc = format!("{} with a={} s={} b={}", src, a.show(), sv.show(), b.show());
